@@ -27,6 +27,7 @@ def run(fx, rep, tier):
     rule_wrap(fx, rep)
     rule_sameidx(fx, rep)
     rule_fill(fx, rep)
+    rule_between(fx, rep)
     rule_magic(fx, rep)
 
 
@@ -334,6 +335,83 @@ def rule_fill(fx, rep):
     rep.rule("C07-FILL", n, 0, ok, "filler covers every blocker subset of every square")
 
 
+# ---- C07-BETWEEN ---------------------------------------------------------------------------
+
+
+def rule_between(fx, rep):
+    """The squares-between generator may produce squares only for two squares on a common rank, file or diagonal: every path
+    that can return a non-empty set has taken the true side of one of its alignment tests (rank == rank, file == file,
+    |file difference| == |rank difference|); all other paths return the empty answer."""
+    cands = [b for b in fx.fn_bodies() if norm(b.name).startswith("chess::movegen::tables::between::") and "::tests::" not in b.name and
+             b.arg_count == 2 and b.kind == "Fn" and "Bitboard" in b.local_ty(0) and all("Square" in b.local_ty(i) for i in (1, 2)) and not norm(b.name).endswith("::between")]
+    if len(cands) != 1:
+        rep.notes.append("C07-BETWEEN: no single (Square, Square) -> Bitboard generator in tables::between; clause not decided")
+        rep.rule("C07-BETWEEN", 0, 0, True, "not decided")
+        return
+    b = cands[0]
+
+    def alignment(e):
+        co = cmp_op(deep_strip(e)) if isinstance(deep_strip(e), tuple) else None
+        if not co or co[0] != "Eq":
+            return None
+        x, y = show(co[1]), show(co[2])
+        if "Square::rank" in x and "Square::rank" in y and "abs_diff" not in x:
+            return "rank"
+        if "Square::file" in x and "Square::file" in y and "abs_diff" not in x:
+            return "file"
+        if "abs_diff" in x and "abs_diff" in y:
+            return "diagonal"
+        return None
+
+    from facts import switch_edge_conds
+    aligned_edges = []
+    tests = set()
+    for a in sorted(b.live_blocks()):
+        for (tgt, e, pol, v) in switch_edge_conds(b, a):
+            al = alignment(e)
+            if al:
+                tests.add(al)
+                if pol is True:
+                    aligned_edges.append((a, tgt))
+    if not tests:
+        rep.notes.append("C07-BETWEEN: the generator has no recognisable alignment test (it may obtain alignment differently); clause not decided")
+        rep.rule("C07-BETWEEN", 0, 0, True, "not decided")
+        return
+
+    def is_empty_value(e):
+        r = deep_strip(e)
+        if isinstance(r, tuple) and r and r[0] == "agg" and str(r[1]).endswith("Option::None"):
+            return True
+        if isinstance(r, tuple) and r and r[0] == "constpath" and str(r[1]).endswith("Bitboard::EMPTY"):
+            return True
+        return False
+    sites = []
+    for d in b.defs().get(0, []):
+        if d[0] == "stmt":
+            rv = d[3]["rv"]
+            if rv["k"] == "use":
+                if is_empty_value(b.expr(rv["op"], expand_named=False, at=d[1])):
+                    continue
+            elif rv["k"] == "agg" and rv.get("variant") == "None":
+                continue
+            sites.append((d[1], d[3].get("line")))
+        elif d[0] == "call":
+            sites.append((d[1], d[2].get("line")))
+    ok = True
+    n = 0
+    free = b.reachable(0, removed_edges=aligned_edges)
+    for (bb, line) in sites:
+        n += 1
+        good = bb not in free
+        rep.obligation(good)
+        if not good:
+            ok = False
+            rep.violation("C07-BETWEEN", "C07-BETWEEN/unaligned", f"`{b.name}` line {line} can return a possibly non-empty set on a path where none of its alignment tests {sorted(tests)} holds: "
+                          f"pairs of squares on no common line get squares 'between' them", {"fn": b.name, "file": b.file, "line": line})
+    rep.sample({"rule": "C07-BETWEEN", "alignment_tests": sorted(tests), "non_empty_return_sites": n})
+    rep.rule("C07-BETWEEN", n, 1, ok, "non-empty squares-between only under an alignment test")
+
+
 # ---- C07-MAGIC -----------------------------------------------------------------------------
 
 
@@ -487,6 +565,8 @@ def rule_magic(fx, rep):
 MG = "src/chess/movegen/tables/magics.rs"
 BB = "src/chess/bitboard.rs"
 MUTANTS = [
+    {"name": "squares-between loses its diagonal alignment test (shape of seed C07-3)", "expect": "C07-BETWEEN",
+     "edits": [("src/chess/movegen/tables/between.rs", "    if s1.file().idx().abs_diff(s2.file().idx()) == s1.rank().idx().abs_diff(s2.rank().idx()) {", "    if s1.file() != s2.file() {")]},
     {"name": "rook filler skips the fully occupied subset (seed C07-2)", "expect": "C07-FILL/rook",
      "edits": [("src/chess/movegen/tables/magics.rs", "        let occupancies = generate_rook_occupancies(s);\n\n        let occupancy_subsets = SubsetsOf::new(occupancies);\n\n        for blockers in occupancy_subsets {",
                 "        let occupancies = generate_rook_occupancies(s);\n\n        let mut blockers = occupancies;\n\n        while blockers.any() {\n            blockers = (blockers - Bitboard::new(1)) & occupancies;")]},
